@@ -15,8 +15,11 @@ import (
 type ClientServerStream struct {
 	ctx context.Context
 
+	// headerM guards header, trailer and closeErr, and the closing of headerC.
+	// The client half reads these on the caller's goroutines, possibly while the handler is still running:
+	// the caller's context can end (and RecvMsg/SendMsg return) before the handler does.
+	headerM sync.Mutex
 	header  metadata.MD
-	headerM sync.Mutex    // guards closing of headerC
 	headerC chan struct{} // closed once calls to clientStream.Header should return
 
 	serverSend chan any
@@ -38,13 +41,18 @@ func NewClientServerStream(ctx context.Context) *ClientServerStream {
 }
 
 func (s *ClientServerStream) Close(err error) {
+	s.headerM.Lock()
 	s.closeErr = err
+	s.headerM.Unlock()
 	close(s.serverSend)
 	s.closed()
 }
 
-// safe to call if s.serverSend is closed
+// closeErrLocked returns the error the stream was closed with, or io.EOF.
+// It may be called whether or not Close has been called yet (the context may have ended for another reason).
 func (s *ClientServerStream) closeErrLocked() error {
+	s.headerM.Lock()
+	defer s.headerM.Unlock()
 	if s.closeErr == nil {
 		return io.EOF
 	}
@@ -69,17 +77,25 @@ func (c *clientStream) Header() (metadata.MD, error) {
 		select {
 		case <-c.headerC:
 			// we should still return the headers if we have them, even if the context is done
-			return c.header, nil
+			return c.sentHeader(), nil
 		default:
 			// when the stream is terminated without headers, ClientStream should return a nil error
 			return nil, nil
 		}
 	case <-c.headerC:
-		return c.header, nil
+		return c.sentHeader(), nil
 	}
 }
 
+func (c *clientStream) sentHeader() metadata.MD {
+	c.headerM.Lock()
+	defer c.headerM.Unlock()
+	return c.header
+}
+
 func (c *clientStream) Trailer() metadata.MD {
+	c.headerM.Lock()
+	defer c.headerM.Unlock()
 	return c.trailer
 }
 
@@ -128,6 +144,8 @@ type serverStream struct {
 }
 
 func (s *serverStream) SetHeader(md metadata.MD) error {
+	s.headerM.Lock()
+	defer s.headerM.Unlock()
 	s.header = metadata.Join(s.header, md)
 	return nil
 }
@@ -147,6 +165,8 @@ func (s *serverStream) SendHeader(md metadata.MD) error {
 }
 
 func (s *serverStream) SetTrailer(md metadata.MD) {
+	s.headerM.Lock()
+	defer s.headerM.Unlock()
 	s.trailer = metadata.Join(s.trailer, md)
 }
 
